@@ -53,9 +53,17 @@ def html_off_config(rng):
     return cfg
 
 
+def supported_c04(md) -> bool:
+    """C04 quantifies over any rule subset: any core rule may be off too (text_join off: escapes and entities reach
+    the renderer as text_special tokens; inline off: inline tokens without children; normalize off: CR / NUL in
+    the source); only the fallback rules that progress needs stay, as for C01"""
+    a = md.get_active_rules()
+    return "paragraph" in a["block"] and "text" in a["inline"]
+
+
 def direct_property(cfg, src):
     md = configs.make_md(cfg)
-    if not supported(md) or md.options.get("html"):
+    if not supported_c04(md) or md.options.get("html"):
         return None
     for api in ("render", "renderInline"):
         try:
@@ -204,6 +212,28 @@ def run(ctx) -> int:
         pcases.append((cfg, "render" if k % 4 else "renderInline", src, None))
     import pipecheck
     n_pipe, pdis, pkn, pkbad, plines = pipecheck.correspond(pcases, "c04p", kernel_sample=10)
+    # core rules switched off (any subset of text_join, inline, normalize, block): text_special tokens and inline tokens
+    # without children at the renderer, CR / NUL in the source
+    ucases = []
+    urng = rng_for("C04", seed, "unjoined")
+    for k in range(240 if tier == "quick" else 6000):
+        cfg = dict(html_off_config(urng), ruler2_off=[])
+        core_off = [["text_join"], ["inline"], ["text_join"], ["normalize"], ["block"], ["text_join", "normalize"]][k % 6] if k % 2 == 0 \
+            else [x for x in ("text_join", "inline", "normalize", "block") if urng.random() < 0.4] or ["text_join"]
+        cfg["disable"] = list(cfg["disable"]) + core_off
+        src = HISTORY_DOCS[k % len(HISTORY_DOCS)] if k < 8 else (slot_doc(urng) if k % 2 else docs.random_doc(urng))
+        if direct is None:
+            n_dir += 1
+            d = direct_property(cfg, src)
+            if d:
+                direct = {"config": cfg, "src": src, **d}
+        ucases.append((cfg, "render" if k % 4 else "renderInline", src, None))
+    n_u, udis, ukn, ukbad, ulines = pipecheck.correspond(ucases, "c04u", kernel_sample=5, support=supported_c04)
+    n_pipe += n_u
+    pdis += udis
+    pkbad = list(pkbad) + list(ukbad)
+    pkn += ukn
+    plines = list(plines) + list(ulines)
     disagreements += pdis
     kbad = list(kbad) + list(pkbad)
     kn += pkn
@@ -224,7 +254,7 @@ def run(ctx) -> int:
     cov.update({
         "evaluations": len(cases) + n_dir + len(strs) + n_pipe, "distinct_nontrivial": len(set(cases)) + len(set(strs)) + len(set(plines)),
         "pipeline_cases": n_pipe,
-        "rule": "html-off configurations (presets x random rule subsets x renderer options; html switched off by constructor, item and attribute assignment; html rules force-enabled; instances brought back to an html-off configuration through reset_rules blocks / configure / disable-enable round trips) x documents placing & < > \" ' ` and entity spellings in every data slot (alt, title, href, fence info/lang, code, cell, heading, reference, autolink) or generated documents; streams rendered by implementation and model; output of render and renderInline checked by a strict HTML grammar",
+        "rule": "html-off configurations (presets x random rule subsets x renderer options; html switched off by constructor, item and attribute assignment; html rules force-enabled; core rules switched off in any combination (text_special tokens / childless inline tokens at the renderer, unnormalised source); instances brought back to an html-off configuration through reset_rules blocks / configure / disable-enable round trips) x documents placing & < > \" ' ` and entity spellings in every data slot (alt, title, href, fence info/lang, code, cell, heading, reference, autolink) or generated documents; streams rendered by implementation and model; output of render and renderInline checked by a strict HTML grammar",
         "samples": inputs[:2], "traces_validated_against_impl": len(cases) + n_pipe, "html_checked": n_dir,
         "in_kernel_cases": kn, "in_kernel_mismatches": len(kbad), "disagreements": len(disagreements),
     })
